@@ -48,7 +48,7 @@ def run_rules(mod, prog: Program):
     return ctx, rep
 
 
-PRESENCE_KEYS = ("clusterer-wiring", "copy-flag-rebound", "single-mode-agreement", "eigh-rows", "ess-lossy", "set-order-layout", "first-iteration-guard", "lost-fancy-store", "kernel-parameter-rebound", "rename-on-error", "column-density", "fancy-accumulate", "density-unregularised", "retained-state-copy", "caller-array-write", "handed-out-logw-modified", "temperature-rebound", "stride-assumption", "seed-transformed", "checkpoint-seed", "draw-cached", "import-time-draw", "stream-rewind", "pool-cached", "pool-read", "vectorize-read",
+PRESENCE_KEYS = ("mapper-keywords", "config-arg-as-given", "index-truthiness", "index-list-mutated", "unweighted-statistic", "blob-rows-are-lists", "reshape-for-transpose", "precision-downgrade", "n_total-forwarded", "import-converted", "clusterer-wiring", "copy-flag-rebound", "single-mode-agreement", "eigh-rows", "ess-lossy", "set-order-layout", "first-iteration-guard", "lost-fancy-store", "kernel-parameter-rebound", "rename-on-error", "column-density", "fancy-accumulate", "density-unregularised", "retained-state-copy", "caller-array-write", "handed-out-logw-modified", "temperature-rebound", "stride-assumption", "seed-transformed", "checkpoint-seed", "draw-cached", "import-time-draw", "stream-rewind", "pool-cached", "pool-read", "vectorize-read",
                  "cached-mutation", "inplace:", "shared-history-list", "foreign-rebind", "alias-mutation", "errstate-underflow", "weights-dtype", "wrapper-stateless", "wrapper-branch",
                  "wrapper-argument", "logl-rewritten", "logl-dtype", "partial-row-copy", "multinomial-pvals-tolerance", "rank-index", "mode-attr-write", "shared-clusterer-rebound",
                  "spectral-floor", "row-gather", "fold-guard-jump", "fold-exact", "unpicklable-attr", "retry-loop", "iter-seed", "facade-partial-selection",
@@ -216,6 +216,38 @@ def check(prop: str, tier: str, repo: str | None, write: bool = True) -> int:
                     rep.errors.append(f"{ob.rule}: undecided in {ob.func}: reported on the tree as written but not on its normal form (the same program with the new helpers written out): "
                                       f"the rule's reading depends on the spelling [{ob.loc}]")
             new_violations = kept
+            if not new_violations:
+                # nothing the tree as written says stands; what the normal form says does (same program)
+                nf_bad = [o for o in rep_nf.obligations if (not o.ok) and engine.match_known(o, prop, known) is None]
+                prog_nf_, ctx_nf_ = locals().get("prog2"), locals().get("ctx2")
+                try:
+                    residual_nf = _residual_new_names(prog, prog_nf_)
+                except Exception:
+                    residual_nf = set()
+                keep_ = []
+                for o in nf_bad:
+                    if _is_presence_rule(o) or prog_nf_ is None or not _references_residual(prog_nf_, o, residual_nf, prog_nf_):
+                        keep_.append(o)
+                nf_bad = keep_
+                if nf_bad and prog_nf_ is not None:
+                    normal_form_note = "the verdict of the tree as written does not stand against its normal form; violations reported from the normal form"
+                    rep_nf.notes.append(normal_form_note)
+                    prog, ctx, rep = prog_nf_, ctx_nf_, rep_nf
+                    known_lines = []
+                    new_violations = []
+                    for ob in rep.obligations:
+                        if ob.ok:
+                            ob.status = "discharged"
+                            continue
+                        e_ = engine.match_known(ob, prop, known)
+                        if e_ is not None:
+                            ob.status = "known"
+                            known_lines.append(f"KNOWN-FINDING: property={prop} {e_.get('id', '')} {e_['what_fails']} [{ob.rule} at {ob.loc}]")
+                        elif ob in nf_bad:
+                            ob.status = "violated"
+                            new_violations.append(ob)
+                        else:
+                            ob.status = "undecided"
         # self-test of the rules (variants of the live tree held in memory)
         extra = {}
         selftest_error = None
